@@ -13,7 +13,7 @@ import string
 from typing import Dict, List, Optional, Tuple
 
 from ..cfg import (CFG, call_name, calls_in, walk_no_nested, parents_map, guards_of, attr_chain,
-                   enum_paths, const_int, enclosing_stmt, ancestors)
+                   enum_paths, const_int, enclosing_stmt, ancestors, branches, ctext, cconds, cguards_of)
 from ..core import AnalysisError, Ctx, Func, norm
 from ..poly import Poly, poly_of
 from ..util import stmts_sorted
@@ -272,19 +272,22 @@ def r12_3(ctx: Ctx):
     oke = False
     if app and inc and tests:
         pair = app[0].value.elts
-        t = norm(tests[0].test).replace(" ", "")
-        want_t = ("not %s or %s[-2] != %s" % (lst, lst, norm(pair[0]))).replace(" ", "")
+        t, when_new, when_same = branches(tests[0])
+        want_t, wpol = ctext("not %s or %s[-2] != %s" % (lst, lst, norm(pair[0])))
+        if not wpol:
+            when_new, when_same = when_same, when_new
         oke = len(pair) == 2 and const_int(pair[1]) == 1 and const_int(inc[0].target.slice) == -1 \
             and const_int(inc[0].value) == 1 and t == want_t \
-            and app[0] in tests[0].body and inc[0] in tests[0].orelse \
+            and app[0] in when_new and inc[0] in when_same \
             and isinstance(app[0].op, ast.Add) and isinstance(inc[0].op, ast.Add)
         # the kind index of a residue: new kinds are appended and indexed by position, known kinds looked up
         kinds = [n_ for n_ in walk_no_nested(enc.node) if isinstance(n_, ast.If) and "different_molecules" in norm(n_.test)]
         if kinds:
             k0 = kinds[0]
-            okk = norm(k0.test).replace(" ", "") == "residuenotinself.different_molecules" \
-                and any("different_molecules.append(residue)" in norm(x) for x in k0.body) \
-                and any(isinstance(x, ast.Assign) and norm(x.value).replace(" ", "") == "len(self.different_molecules)-1" for x in k0.body)
+            kt, k_known, k_new = branches(k0)
+            okk = (kt, True) == ctext("residue in self.different_molecules") \
+                and any("different_molecules.append(residue)" in norm(x) for x in k_new) \
+                and any(isinstance(x, ast.Assign) and norm(x.value).replace(" ", "") == "len(self.different_molecules)-1" for x in k_new)
             oke = oke and okk
     # exactly one place starts a pair and exactly one extends the last count
     all_inc = [s_ for s_ in walk_no_nested(enc.node) if isinstance(s_, ast.AugAssign) and (
